@@ -231,7 +231,21 @@ def validator_case(rules, rng, missing=False, unknown=False, unparseable=False, 
             e.register_default(policy.RuleDefault(n, ev.rule_text(t)))
         with mock.patch('oslo_policy.generator._get_enforcer', return_value=e), \
                 mock.patch('builtins.print'):
-            c['rc'] = generator._validate_policy('verif')
+            if rng.random() < 0.5:
+                # through the console entry point (oslopolicy-validator): the exit status of the process
+                c['_via'] = 'validate_policy(args)'
+                try:
+                    nc = cfg.ConfigOpts()               # the entry point parses its own command line on the global object
+                    opts._register(nc)
+                    nc.set_override('policy_file', path, group='oslo_policy')
+                    nc.set_override('policy_dirs', [], group='oslo_policy')
+                    with mock.patch.object(cfg, 'CONF', nc):
+                        generator.validate_policy(args=['--namespace', 'verif'])
+                    c['rc'] = 0             # returned without exiting: status 0
+                except SystemExit as se:
+                    c['rc'] = se.code if isinstance(se.code, int) else (0 if se.code is None else 1)
+            else:
+                c['rc'] = generator._validate_policy('verif')
     except Exception as ex:
         c['crashed'] = 1
         c['_exc'] = '%s: %s' % (type(ex).__name__, ex)
